@@ -38,6 +38,121 @@ def offsets_in(expr, arrays, var='ij'):
 GUARDS = {'ij-1': {'ij%nx>0'}, 'ij-nx': {'ij>=nx'}, 'ij-nx-1': {'ij%nx>0', 'ij>=nx'}, 'ij-nx+1': {'ij%nx<nx-1', 'ij>=nx'}}
 
 
+def _phases_of(prog, f):
+    """predicate: the phases split off kernel f - jit functions that allocate arrays and are called by f outside of its loops
+    (once per run, not once per pixel) - executed in place by the interpreter"""
+    top = set()
+    for st in f.node.body:
+        if isinstance(st, (ast.For, ast.While)):
+            continue
+        for n in ast.walk(st):
+            if isinstance(n, ast.Call):
+                try:
+                    t = prog.resolve_callable(f, f.module, n.func)
+                except Exception:      # noqa
+                    continue
+                if isinstance(t, Func) and t.jit is not None and any(
+                        isinstance(x, ast.Call) and isinstance(x.func, ast.Attribute) and x.func.attr in (
+                            'zeros', 'ones', 'full', 'empty', 'zeros_like', 'ones_like', 'full_like', 'empty_like') for x in t.own_nodes()):
+                    top.add(t)
+    return lambda g: g in top
+
+
+def regions_roles(prog, f, k=None):
+    """(values, mask, connectivity flag, nx, ny) of the labelling routine, by use: the per-pixel loop runs over the product of
+    the two extents; nx is the extent used as the row stride (the S neighbour is read at ij - nx), ny the other; values is the
+    array handed to the value matcher, mask the array tested against None, the flag the remaining scalar"""
+    from ..sym import Sym, walk_atoms
+    from ..kutil import guard_atoms
+    if k is None:
+        k = interpret(prog, f, strict=False, inline_all=_phases_of(prog, f))
+    P = list(f.params)
+    fallback = tuple(P[:5]) if len(P) >= 5 else None
+    loops = [st.loops[0] for st in k.stores if st.loops]
+    if not loops:
+        return fallback
+    L = loops[0]
+    ext = sorted({a.name for a in walk_atoms(L.hi) if isinstance(a, Sym) and a.name in P})
+    if len(ext) != 2 or L.hi != Rat.sym(ext[0]) * Rat.sym(ext[1]):
+        return fallback
+    IJ = Rat.sym(L.var)
+    atoms = set()
+    for st in k.stores:
+        atoms |= guard_atoms(st.guards) | (walk_atoms(st.value) if isinstance(st.value, Rat) else set())
+    for c in k.calls:
+        atoms |= guard_atoms(c[2])
+    stride = set()
+    for a in atoms:
+        if isinstance(a, App) and a.name in ('read', 'cell?') and len(a.args) >= 2 and isinstance(a.args[1], Rat):
+            for e_ in ext:
+                if a.args[1] == IJ - Rat.sym(e_):
+                    stride.add(e_)
+    if len(stride) != 1:
+        return fallback
+    nx = next(iter(stride))
+    ny = [e_ for e_ in ext if e_ != nx][0]
+    vals = set()
+    for a in atoms:
+        if isinstance(a, App) and a.name.startswith('call:') and len(a.args) == 2:
+            for x in a.args:
+                at = _single(x) if isinstance(x, Rat) else None
+                if at is not None and at.name in ('read', 'cell?') and at.args[0] in P:
+                    vals.add(at.args[0])
+    masks = {a.args[0].atoms().__iter__().__next__().name for a in atoms if isinstance(a, App) and a.name == 'is' and isinstance(a.args[0], Rat)
+             and len(list(a.args[0].atoms())) == 1 and isinstance(next(iter(a.args[0].atoms())), Sym)} & set(P)
+    if len(vals) != 1:
+        return fallback
+    values = next(iter(vals))
+    if len(masks) != 1:
+        masks = {a.args[0] for a in atoms if isinstance(a, App) and a.name in ('read', 'cell?') and a.args[0] in P and a.args[0] != values}
+    if len(masks) != 1:
+        return fallback
+    mask = next(iter(masks))
+    rest = [p_ for p_ in P if p_ not in (values, mask, nx, ny)]
+    if len(rest) != 1:
+        return fallback
+    return values, mask, rest[0], nx, ny
+
+
+def scan_roles(prog, m, scan):
+    """(values, mask, connectivity flag, transform, nx, ny) of the scan routine: what it hands to the labelling routine under
+    that routine's roles, and what it hands to the affine helper as coefficients"""
+    reg, tp = m.funcs.get('_calculate_regions'), m.funcs.get('_transform_points')
+    fallback = tuple(scan.params[:6]) if len(scan.params) >= 6 else None
+    if reg is None or tp is None:
+        return fallback
+    rr = regions_roles(prog, reg)
+    tr = transform_roles(prog, tp)
+    if rr is None:
+        return fallback
+
+    def pname(v):
+        if isinstance(v, tuple) and len(v) == 2 and v[0] == 'param':
+            return v[1]
+        if isinstance(v, Arr):
+            return v.name
+        if isinstance(v, Rat):
+            ats = list(v.atoms())
+            if len(ats) == 1 and hasattr(ats[0], 'name') and v == Rat.sym(ats[0].name):
+                return ats[0].name
+        return None
+    k = interpret(prog, scan, strict=False)
+    out = {}
+    for c in k.calls:
+        callee = c[6] if len(c) > 6 else None
+        if callee is reg:
+            b = _bind_rec(c, reg)
+            for role, p_ in zip(('values', 'mask', 'conn', 'nx', 'ny'), rr):
+                out.setdefault(role, pname(b.get(p_)))
+        elif callee is tp:
+            b = _bind_rec(c, tp)
+            out.setdefault('transform', pname(b.get(tr[1])))
+    got = tuple(out.get(r_) for r_ in ('values', 'mask', 'conn', 'transform', 'nx', 'ny'))
+    if any(g is None or g not in scan.params for g in got) or len(set(got)) != 6:
+        return fallback
+    return got
+
+
 def check_neighbours(prog, rep, m):
     """G1 / G2 on the interpreted one-pass labelling: for a pixel at the corners, edges and interior of a 5-column raster
     and every set of matching neighbours that the property needs (none, a single W / S / SW / SE neighbour, and the pairs
@@ -51,8 +166,11 @@ def check_neighbours(prog, rep, m):
     if f is None:
         raise AnalysisIncomplete('_calculate_regions not found')
     entry = 'polygonize labelling'
-    k = interpret(prog, f, strict=False)
-    values, mask, conn8, nxp = f.params[0], f.params[1], f.params[2], f.params[3]
+    k = interpret(prog, f, strict=False, inline_all=_phases_of(prog, f), index_arrays=True)     # phases split off the routine run in place
+    rr = regions_roles(prog, f, k)
+    if rr is None:
+        raise AnalysisIncomplete('_calculate_regions: parameter roles not identified')
+    values, mask, conn8, nxp, nyp = rr
     outs = [v for v, g in k.returns if isinstance(v, Arr)]
     gather = None
     if not outs and len(k.returns) == 1 and isinstance(k.returns[0][0], Rat):
@@ -73,7 +191,7 @@ def check_neighbours(prog, rep, m):
     L = first[0].loops[0]
     IJ = Rat.sym(L.var)
     NX = Rat.sym(nxp)
-    okloop = L.kind == 'range' and L.lo == Rat.const(0) and L.hi == NX * Rat.sym(f.params[4]) and L.step == Rat.const(1)
+    okloop = L.kind == 'range' and L.lo == Rat.const(0) and L.hi == NX * Rat.sym(nyp) and L.step == Rat.const(1)
     rep.add('G1', f, entry, 'labelling scan: for ij in range(nx * ny)', L.node.lineno, okloop, 'every pixel is labelled in raster order')
     sts = [st for st in k.stores if st.arr is regions and st.loops and st.loops[0] is L and tuple(st.idx) == (IJ,)]
     merges = [c for c in k.calls if c[0] == '_merge_regions' and c[4] and c[4][0] is L]
@@ -213,7 +331,8 @@ def check_neighbours(prog, rep, m):
             L3 = st.loops[0]
             va = _single(st.value) if isinstance(st.value, Rat) else None
             inner = _single(va.args[1]) if va is not None and va.name in ('cell?', 'read') and len(va.args) >= 2 and isinstance(va.args[1], Rat) else None
-            okfin = L3.kind == 'range' and L3.lo == Rat.const(0) and L3.hi == L.hi and tuple(st.idx) == (Rat.sym(L3.var),) and \
+            okfin = L3.kind == 'range' and L3.lo == Rat.const(0) and (L3.hi == L.hi or L3.hi == Rat.atom(App('shape', [regions.name, 0]))) and \
+                tuple(st.idx) == (Rat.sym(L3.var),) and \
                 not [g for g in st.guards if g != ('const', True)] and inner is not None and inner.name in ('cell?', 'read') and \
                 inner.args[0] == regions.name and inner.args[1] == Rat.sym(L3.var)
             lk = va.args[0] if okfin else None
@@ -227,30 +346,69 @@ def check_neighbours(prog, rep, m):
         from fractions import Fraction as Fr
         from ..kutil import CannotEvaluate, eval_cond_full, evaluate
         from ..sym import Sym, walk_atoms
-        L2 = lst[0].loops[0]
-        carried = getattr(L2, 'carried', {})
-        cnt = [n_ for n_, (phi_, end_) in carried.items() if any(isinstance(st.value, Rat) and st.value == phi_ for st in lst)]
-        ats = set()
+        # the table may be filled by one loop over all ids (ids beyond the old table handled by a test) or by consecutive
+        # loops (inside the old table, then beyond it): every id is evaluated in the loop whose range holds it
+        loops2 = []
         for st in lst:
-            ats |= guard_atoms(st.guards) | (walk_atoms(st.value) if isinstance(st.value, Rat) else set())
-        lens = [a for a in ats if isinstance(a, App) and a.name == 'len']
-        rls = [a for a in ats if isinstance(a, App) and a.name in ('read', 'cell?') and a.args[0] != lk and a.args[1] == Rat.sym(L2.var)]
-        if len(cnt) == 1 and len(lens) <= 1 and len(rls) == 1 and all(tuple(st.idx) == (Rat.sym(L2.var),) for st in lst):
-            cphi, cend = carried[cnt[0]]
-            catom = _single(cphi) if _single(cphi) is not None else next(iter(cphi.atoms()))
+            if not any(st.loops[0] is x for x in loops2):
+                loops2.append(st.loops[0])
+        per = {}
+        shape_ok = True
+        for L2 in loops2:
+            mine = [st for st in lst if st.loops[0] is L2]
+            carried = getattr(L2, 'carried', {})
+            cnt = [n_ for n_, (phi_, end_) in carried.items() if any(isinstance(st.value, Rat) and st.value == phi_ for st in mine)]
+            ats = set()
+            for st in mine:
+                ats |= guard_atoms(st.guards) | (walk_atoms(st.value) if isinstance(st.value, Rat) else set())
+            for x in (L2.lo, L2.hi):
+                ats |= walk_atoms(x) if isinstance(x, Rat) else set()
+            lens = [a for a in ats if isinstance(a, App) and a.name in ('len', 'shape') and (a.args[0] if a.name == 'shape' else None) != lk]
+            rls = [a for a in ats if isinstance(a, App) and a.name in ('read', 'cell?') and a.args[0] != lk and len(a.args) >= 2 and
+                   isinstance(a.args[1], Rat) and Sym(L2.var) in walk_atoms(a.args[1])]
+            if len(cnt) != 1 or len(rls) > 1 or not all(tuple(st.idx) == (Rat.sym(L2.var),) or
+                                                         (len(st.idx) == 1 and Sym(L2.var) in walk_atoms(st.idx[0])) for st in mine):
+                shape_ok = False
+                break
+            per[id(L2)] = (L2, mine, carried[cnt[0]], cnt[0], lens, rls)
+        if shape_ok and per:
             try:
                 res = []
                 for i_, n_, t_ in ((3, 10, 0), (3, 10, 2), (12, 10, 7)):
-                    env = {Sym(L2.var): Fr(i_), rls[0]: Fr(t_), catom: Fr(40), '__read__': lambda key_, idx: 100 + int(idx[0])}
-                    for a in lens:
-                        env[a] = Fr(n_)
-                    vals = [evaluate(st.value, env) for st in lst if all(eval_cond_full(g, env) for g in st.guards)]
+                    hit = []
+                    for L2, mine, (cphi, cend), cname, lens, rls in per.values():
+                        catom = _single(cphi) if _single(cphi) is not None else next(iter(cphi.atoms()))
+                        env = {catom: Fr(40), '__read__': lambda key_, idx: 100 + int(idx[0])}
+                        for a in lens:
+                            env[a] = Fr(n_)
+                        # everything else the range depends on (the id counter after the labelling scan): 14 ids were given out
+                        for x in (L2.lo, L2.hi):
+                            for a in (walk_atoms(x) if isinstance(x, Rat) else ()):
+                                if a not in env and not (isinstance(a, App) and a.name in ('min', 'max', 'ite')) and not isinstance(a, tuple):
+                                    if isinstance(a, Sym) or (isinstance(a, App) and a.name in ('loopout', 'len', 'shape')):
+                                        env.setdefault(a, Fr(14))
+                        lo_, hi_ = evaluate(L2.lo, env), evaluate(L2.hi, env)
+                        # the loop variable value at which the stored index equals i_
+                        idx0 = mine[0].idx[0]
+                        for kk in range(int(lo_), int(hi_)):
+                            e2 = dict(env)
+                            e2[Sym(L2.var)] = Fr(kk)
+                            if evaluate(idx0, e2) == i_:
+                                if rls:
+                                    e2[rls[0]] = Fr(t_)
+                                vals = [evaluate(st.value, e2) for st in mine if all(eval_cond_full(g, e2) for g in st.guards)]
+                                hit.append((vals, evaluate(cend, e2)))
                     target = t_ if i_ < n_ else 0
                     want = 40 if target == 0 else 100 + target
-                    res.append((vals == [want], evaluate(cend, env) == (41 if target == 0 else 40)))
-                oklk = all(a_ and b_ for a_, b_ in res) and L2.lo == Rat.const(0)
-                whylk = '(value, counter) right for (unmerged, merged into 2, beyond the table): %s' % res
-            except CannotEvaluate as e:
+                    res.append(len(hit) == 1 and hit[0][0] == [want] and hit[0][1] == (41 if target == 0 else 40))
+                # the dense counter runs through all the loops: 0 before the first, carried on into the next
+                order = sorted(per.values(), key=lambda x: x[0].node.lineno)
+                thread = order[0][0].pre.get(order[0][3]) == Rat.const(0) and all(
+                    isinstance(x[0].pre.get(x[3]), Rat) and not x[0].pre.get(x[3]).is_const() for x in order[1:])
+                oklk = all(res) and thread
+                whylk = '(value, counter) right for (unmerged, merged into 2, beyond the table): %s; counter carried through %d loop(s): %s' % (
+                    res, len(order), thread)
+            except (CannotEvaluate, TypeError, ValueError) as e:
                 oklk, whylk = None, str(e)
     rep.add('G2', f, entry, 'consolidated lookup: unmerged ids are renumbered densely, merged ids follow their target', f.node.lineno, oklk, whylk)
     mm = m.funcs.get('_min_and_max')
@@ -285,6 +443,14 @@ def _bind_rec(rec, callee):
         b[p] = a
     for kname, v in (rec[5] or {}).items():
         b[kname] = v
+    # parameters left to their (constant) defaults
+    try:
+        for p, dn in callee.defaults().items():
+            if p not in b and isinstance(dn, ast.Constant):
+                b[p] = ('const', dn.value) if isinstance(dn.value, bool) or dn.value is None else Rat.const(dn.value) \
+                    if isinstance(dn.value, (int, float)) else ('const', dn.value)
+    except Exception:      # noqa
+        pass
     return b
 
 
@@ -439,7 +605,10 @@ def check_scan(prog, rep, m, R=None):
             a_ = _atom(v) if isinstance(v, Rat) else None
             return isinstance(a_, App) and a_.name == 'unpack' and a_.args[1] == Rat.const(1) and \
                 repr(a_.args[0]).startswith('call:' + follow.name + '(') and _same_call(a_.args[0], rec, R, follow)
-        tcalls = [(n2, ev[1]) for n2, ev in later if ev[0] == 'call' and ev[1][1] and is_ring(ev[1][1][0])]
+        tpf = m.funcs.get('_transform_points')
+        trole = transform_roles(prog, tpf) if tpf is not None else None
+        tcalls = [(n2, ev[1]) for n2, ev in later if ev[0] == 'call' and ev[1][1] and trole is not None and len(ev[1]) > 6 and ev[1][6] is tpf and
+                  is_ring(_bind_rec(ev[1], tpf).get(trole[0]))]
         apps = [(n2, ev[1]) for n2, ev in later if ev[0] == 'append' and any(_mentions(v, is_ring) for v in ev[1][1])]
         # a copy / view of the ring taken before the (in-place) transform would be stored untransformed
         derived = [(n2, ev[1]) for n2, ev in later if ev[0] == 'append' and not any(_mentions(v, is_ring) for v in ev[1][1]) and
@@ -449,7 +618,7 @@ def check_scan(prog, rep, m, R=None):
         why = ''
         if len(tcalls) == 1 and (apps or derived):
             n2, trec = tcalls[0]
-            targ = trec[1][1] if len(trec[1]) > 1 else None
+            targ = _bind_rec(trec, tpf).get(trole[1])
             tname = targ[1] if isinstance(targ, tuple) and targ and targ[0] == 'param' else None
             tparam = tname
             try:
@@ -529,9 +698,21 @@ def _same_call(callrat, rec, R, follow):
     return i < len(a.args) and isinstance(st, Rat) and a.args[i] == st
 
 
+def transform_roles(prog, tp):
+    """(points parameter, coefficients parameter) of the in-place affine helper: the points are the array it writes, the
+    coefficients the other one"""
+    k = interpret(prog, tp)
+    written = {s_.arr.name for s_ in k.stores if s_.arr.name in tp.params}
+    if len(written) != 1 or len(tp.params) < 2:
+        return tp.params[0], tp.params[1]
+    pts = next(iter(written))
+    rest = [p_ for p_ in tp.params if p_ != pts]
+    return pts, rest[0]
+
+
 def check_transform(prog, rep, tp, entry):
     k = interpret(prog, tp)
-    pts, tr = tp.params[:2]
+    pts, tr = transform_roles(prog, tp)
     ok = False
     st = [s for s in k.stores if s.idx != 'all']
     if len(st) == 2:
@@ -956,7 +1137,10 @@ def check_misc(prog, rep, m):
     line = sc[0].node.lineno
     rname, mname = pub.params[0], pub.params[1]
     # roles of the scan's parameters by position of its own signature (values, mask, connectivity flag, transform, nx, ny)
-    pv, pm_, pc, pt, pnx, pny = scan.params[:6]
+    sr = scan_roles(prog, m, scan)
+    if sr is None:
+        raise AnalysisIncomplete('_scan: parameter roles not identified')
+    pv, pm_, pc, pt, pnx, pny = sr
     env0 = {'raster': ('param', rname), 'mask': ('param', mname)}
     W = w.expr('raster.data.shape[1]', env0, pub)
 
